@@ -45,7 +45,7 @@ func (r *Run) execFrom(fr *Frame, st *State, b *ssa.BasicBlock, start int, prev 
 			for _, rv := range x.Results {
 				rets = append(rets, r.val(fr, st, rv))
 			}
-			return []Outcome{{st, rets}}
+			return []Outcome{{st, rets, fr}}
 		case *ssa.Panic:
 			r.safety(fr, st, "panic", in, "false")
 			return nil
@@ -66,6 +66,9 @@ func (r *Run) execFrom(fr *Frame, st *State, b *ssa.BasicBlock, start int, prev 
 			return res
 		case *ssa.Call:
 			outs := r.handleCall(fr, st, x, &x.Call)
+			for _, o := range outs {
+				r.recordCall(o.st, x, &x.Call, o.rets)
+			}
 			if len(outs) == 1 && outs[0].st == st {
 				if len(outs[0].rets) > 0 {
 					fr.vals[x] = outs[0].rets[0]
@@ -89,6 +92,27 @@ func (r *Run) execFrom(fr *Frame, st *State, b *ssa.BasicBlock, start int, prev 
 		}
 	}
 	return nil
+}
+
+func (r *Run) recordCall(st *State, instr ssa.Instruction, cc *ssa.CallCommon, rets []*Val) {
+	name := r.eng.calleeName(cc)
+	if strings.HasPrefix(name, "dyn:") {
+		name = strings.TrimPrefix(name, "dyn:")
+	}
+	key := fmt.Sprintf("%s#%d", name, r.eng.callOrdinal(instr, r.eng.calleeName(cc)))
+	if instr.Parent() != r.fn {
+		key = fnName(instr.Parent()) + ":" + key
+	}
+	if st.calls == nil {
+		st.calls = map[string][]*Val{}
+	}
+	var flat []*Val
+	if len(rets) == 1 && rets[0] != nil && rets[0].K == KTuple {
+		flat = rets[0].Elems
+	} else {
+		flat = rets
+	}
+	st.calls[key] = flat
 }
 
 func (r *Run) runDefers(fr *Frame, st *State) []Outcome {
